@@ -80,7 +80,11 @@ def make_mapped_model(cfg, seed, rich=False):
 
 
 MIX = {"pure": dict(xmix=1.0, xkernel=None, ckernel=None), "xmix": dict(xmix=0.25, xkernel="GGA_X_PBE", ckernel=None),
-       "xmix_c": dict(xmix=0.25, xkernel="GGA_X_PBE", ckernel="GGA_C_PBE"), "libxc2": dict(xmix=0.5, xkernel="GGA_X_PBE", ckernel="GGA_C_PBE")}
+       "xmix_c": dict(xmix=0.25, xkernel="GGA_X_PBE", ckernel="GGA_C_PBE"), "libxc2": dict(xmix=0.5, xkernel="GGA_X_PBE", ckernel="GGA_C_PBE"),
+       # the `xc` keyword (an extra semilocal functional added as it is), a correlation-only remainder, a meta-GGA remainder
+       "xc_extra": dict(xmix=0.6, xkernel="GGA_X_B88", ckernel=None, xc="0.3*GGA_C_P86 + 0.2*LDA_C_VWN"),
+       "conly": dict(xmix=1.0, xkernel=None, ckernel="GGA_C_LYP"),
+       "mgga_mix": dict(xmix=0.25, xkernel="MGGA_X_SCAN", ckernel="MGGA_C_SCAN")}
 
 
 def make_session(cfg, mol, unrestricted, seed, level=0, atom_grid=None, rich=False, rhocut=None, density_fit=False):
